@@ -129,7 +129,7 @@ def c18_custom(prop, tier, a):
             args += ["--distinct", "1"]
         res = vlib.run_shards(exes[cfg], args, vlib.NPROC, left + 60)
         d = {"blocks": {}, "aborts": [], "cases": 0, "nontrivial": 0, "distinct": set(), "distinct_n": 0, "sections": None,
-             "total_cases": None, "total_blocks": None, "complete": True}
+             "total_cases": None, "total_blocks": None, "complete": True, "capped": 0}
         for rc, j, tail in res:
             if j is None:
                 d["complete"] = False
@@ -146,7 +146,9 @@ def c18_custom(prop, tier, a):
             d["nontrivial"] += j.get("nontrivial", 0)
             d["distinct"].update(j.get("distinct", []))
             d["distinct_n"] += j.get("counters", {}).get("distinct_in_shard", 0)
-            d["sections"] = e.get("sections", d["sections"])
+            d["capped"] += j.get("counters", {}).get("distinct_capped_shards", 0)
+            if d["sections"] is None or any("first_case" in s_ for s_ in e.get("sections", [])):
+                d["sections"] = e.get("sections", d["sections"])
             d["total_cases"] = e.get("total_cases", d["total_cases"])
             d["total_blocks"] = e.get("total_blocks", d["total_blocks"])
             if not j.get("exhaustive", True):
@@ -300,7 +302,9 @@ def c18_custom(prop, tier, a):
         "unconfirmed_candidates": unconfirmed,
         "stages": stage_info,
         "notes": notes[:20],
-        "samples": [{"section": s["name"], "cases": s["size"]} for s in (ref["sections"] or [])][:24],
+        "distinct_is_lower_bound": bool(ref["capped"]),
+        "samples": [{"section": s["name"], "cases": s["size"], "first_case": s.get("first_case"), "last_case": s.get("last_case")}
+                    for s in (ref["sections"] or [])][:24],
     }
     return vlib.finish(prop, tier, C18_LEVEL, cov, t0, confirmed, assumptions)
 
@@ -327,7 +331,7 @@ simple("C18", C18_LEVEL,
         "inputs are valid UTF-8"],
        lambda tier: [{"name": "digest", "driver": "drv_cfgdump", "config": c, "sources": C18_SRC, "args": [], "kinds": ["cfgdump"]}
                      for c in C18_CONFIGS],
-       custom=c18_custom, configs=C18_CONFIGS, deadline={"quick": 300, "thorough": 2400})
+       custom=c18_custom, configs=C18_CONFIGS, deadline={"quick": 600, "thorough": 2400})
 
 META["C18"] = {
     "engine": "cfgdump (one dump driver x 5 library builds) + digest comparison / record diff / replay orchestrator",
